@@ -235,6 +235,11 @@ def decide_and_report(pid, tier, seed, cfg, report, scratch):
             exit_code = 1
         else:
             lines.append(f'  replay grids (bounded, thorough tier): {cases} cases of {len(cfg["standin_ops"])} operations agree with the specification' + (f' apart from {len(grid_known)} recorded open finding(s)' if grid_known else ''))
+    if tier != 'thorough':
+        # open findings of the bounded grids are only re-run by the thorough tier; the quick tier still lists them
+        for k in known:
+            if k.get('grid_op') and not any(k.get('witness', '') in l for l in lines):
+                lines.append(f'KNOWN-FINDING: property={pid} grid {k["grid_op"]} {k.get("witness", "")} (bounded grid input, re-run by the thorough tier only) -- {k.get("what", "")}')
     write_evidence(pid, tier, seed, cfg, report, violations + standin_v, known_hit)
     return exit_code, lines
 
